@@ -1592,7 +1592,14 @@ def grid_sample(input: STensor, grid: STensor, mode="bilinear", padding_mode="ze
         align_corners = False
     import hashlib
     # opaque results are named by a digest of the arguments: the same sampling of the same data is the same value
-    call_no = hashlib.md5(repr((input.tolist(), grid.tolist(), mode, padding_mode, bool(align_corners))).encode()).hexdigest()[:10]
+    # (per channel and point: the value depends only on the channel's data, the point, the modes and the flag)
+    tail = repr((mode, padding_mode, bool(align_corners)))
+    _chd: Dict[Tuple[int, int], str] = {}
+
+    def point_atom(b: int, c: int, pt) -> Rat:
+        if (b, c) not in _chd:
+            _chd[(b, c)] = hashlib.md5(repr((input[b, c].tolist(), list(input.shape[2:]), tail)).encode()).hexdigest()[:10]
+        return Rat.atom("gs" + hashlib.md5((_chd[(b, c)] + repr([str(to_rat(x)) for x in pt])).encode()).hexdigest()[:12])
     GRID_SAMPLE_CALLS.append({"input": input, "grid": grid, "mode": mode, "padding_mode": padding_mode, "align_corners": align_corners})
     N, C = input.shape[0], input.shape[1]
     spatial = list(input.shape[2:])
@@ -1636,7 +1643,7 @@ def grid_sample(input: STensor, grid: STensor, mode="bilinear", padding_mode="ze
                         v = v[idx[d]]
                     per_c[c].append(v)
                 else:
-                    per_c[c].append(Rat.atom(f"gs{call_no}_{b}_{c}_{k}"))
+                    per_c[c].append(point_atom(b, c, g[b][k]))
         for c in range(C):
             vals.extend(per_c[c])
     return STensor.from_flat(vals, [N, C] + out_sp, input.dtype if input.dtype.is_floating_point else FLOAT)
